@@ -476,7 +476,7 @@ func isContainer(v *Val) bool {
 
 func (g *Gen) idx(n int) int {
 	switch {
-	case g.R.Chance(0.04):
+	case g.R.Chance(0.06):
 		return n + g.R.Intn(3)
 	case g.R.Chance(0.02):
 		return -1 - g.R.Intn(2)
@@ -518,6 +518,7 @@ func (g *Gen) containerOp() Op {
 	et := t.Elem
 	for j := 0; j < nsub; j++ {
 		var s SubOp
+		edge := false
 		n := len(cur.Elems)
 		switch t.K {
 		case "Arr":
@@ -549,6 +550,13 @@ func (g *Gen) containerOp() Op {
 				s.J = s.I + g.R.Intn(n+1-min(s.I, n)+1)
 				if g.R.Chance(0.05) {
 					s.I, s.J = s.J+1, s.I
+				}
+				if g.R.Chance(0.25) {
+					// boundary cases
+					edges := [][2]int{{n, n}, {n + 1, n + 1}, {0, 0}, {n, n + 1}, {-1, 0}, {0, n}, {n + 2, n + 2}, {1, 0}, {0, n + 1}, {-1, -1}}
+					e := edges[g.R.Intn(len(edges))]
+					s.I, s.J = e[0], e[1]
+					edge = true
 				}
 			case "contains", "firstIndex":
 				if n > 0 && g.R.Chance(0.6) {
@@ -600,10 +608,15 @@ func (g *Gen) containerOp() Op {
 		sc.Accts[1].Storage["x"] = cur
 		pr := &Pred{}
 		if f, _ := sc.applyContainers(Op{K: "c.ops", A: 1, P: "x", T: t, M: "ref", Sub: []SubOp{s}}, pr); f != "" {
-			if !g.R.Chance(g.Cfg.FailRate) {
+			keep := g.Cfg.FailRate
+			if edge {
+				keep = 0.7
+			}
+			if !g.R.Chance(keep) {
 				o.Sub = o.Sub[:len(o.Sub)-1]
 				continue
 			}
+			o.Edge = edge
 			break
 		}
 	}
@@ -765,7 +778,7 @@ func (g *Gen) ops(isScript bool) []Op {
 		pr := &Pred{}
 		try := scratch.Clone()
 		if f := try.Apply(o, pr); f != "" {
-			if g.R.Chance(g.Cfg.FailRate) {
+			if g.R.Chance(g.Cfg.FailRate) || (o.Edge && g.R.Chance(0.8)) {
 				ops = append(ops, o)
 				break
 			}
